@@ -26,6 +26,7 @@ def run(ctx):
     r145(ctx)
     r146(ctx)
     r147(ctx)
+    r148(ctx)
     from . import c08
     c08.r85(ctx)
 
@@ -230,11 +231,14 @@ def r146(ctx, rule='R14.6'):
     f = ut.func('metadata_from_many')
     n = 0
     for x in walk_no_nested(f):
-        if isinstance(x, ast.Subscript) and isinstance(x.slice, ast.Slice) and x.slice.lower is not None and norm(x.slice.lower) == 'len(basepath)':
+        if isinstance(x, ast.Subscript) and isinstance(x.slice, ast.Slice) and x.slice.lower is not None and 'len(basepath)' in norm(x.slice.lower):
             n += 1
             par = [c for c in walk_no_nested(f) if isinstance(c, ast.Call) and isinstance(c.func, ast.Attribute) and c.func.value is x]
-            ok = any(c.func.attr == 'lstrip' and c.args and isinstance(c.args[0], ast.Constant) and c.args[0].value == '/' for c in par)
-            ctx.ob(rule, 'util.metadata_from_many:relative-path-without-leading-slash:%s' % norm(x)[:30], ok, norm(x), ut.loc(x))
+            ok = any(c.func.attr == 'lstrip' and c.args and isinstance(c.args[0], ast.Constant) and c.args[0].value == '/' for c in par) \
+                and norm(x.slice.lower) == 'len(basepath)'
+            ctx.ob(rule, 'util.metadata_from_many:relative-path-without-leading-slash:%d' % n, ok,
+                   '`%s`: cut exactly the common base and strip the separator if there is one (an empty base has none: a fixed +1 '
+                   'eats the first character of a bare file name)' % norm(x), ut.loc(x))
     ctx.floor(rule, 'relative path computations', n, 2)
 
 
@@ -252,3 +256,15 @@ def r147(ctx, rule='R14.7'):
     ok = len(rec) == 1 and '_strip_protocol(fn)' in norm(rec[0].value)
     ctx.ob(rule, 'util.metadata_from_many:fetched-footers-found-under-normalised-paths', ok,
            'fs.cat keys its result by absolute, protocol-less paths; the caller may have given relative ones', ut.loc(rec[0]) if rec else ut.loc(f))
+
+
+def r148(ctx, rule='R14.8'):
+    """analyse_paths splits every entry on '/' after normalising it with join_path (backslashes, duplicate and trailing
+    separators): a directory given with a trailing slash must not produce an empty path level"""
+    ut = ctx.repo['util']
+    f = ut.func('analyse_paths')
+    st = [x for x in walk_no_nested(f) if isinstance(x, ast.Assign) and norm(x.targets[0]) == 'path_parts_list']
+    ok = len(st) == 1 and "join_path(fn).split('/')" in norm(st[0].value)
+    ctx.ob(rule, 'util.analyse_paths:entries-normalised-before-splitting', ok, norm(st[0])[:100] if st else '', ut.loc(f))
+    rt = [x for x in walk_no_nested(f) if isinstance(x, ast.Assign) and norm(x.targets[0]) == 'basepath' and 'root' in norm(x.value)]
+    ctx.ob(rule, 'util.analyse_paths:root-normalised-the-same-way', len(rt) == 1 and "join_path(root).split('/')" in norm(rt[0].value), '', ut.loc(f))
